@@ -57,10 +57,8 @@ theorem emb_binary (e : Expr) (op : Str) (p : Int) (x y : Node) (hf : FragE0 e =
   | list as => simp only [Emb] at h; obtain ⟨p, p', ops, h, _⟩ := h; cases h
   | _ => simp [FragE0] at hf
 
-theorem embLv_name_ok (lv : Expr) (l : Node) (h : EmbLv lv l) : ∃ nm, l.name = .ok nm := by
-  cases lv with
-  | var k v => cases k <;> (simp only [EmbLv] at h; first | (obtain ⟨p, rfl⟩ := h; exact ⟨_, rfl⟩) | (obtain ⟨p, q, rfl⟩ := h; exact ⟨_, rfl⟩))
-  | _ => simp [EmbLv] at h
+theorem embLv_name_ok (lv : Expr) (l : Node) (h : EmbLv lv l) : ∃ nm, l.name = .ok nm :=
+  embLv_name lv l h   -- agent-link's lemma (Drx/Link.lean): follows every extension of `EmbLv`
 
 theorem binName_add (o : BinOp) (h : binName o = S "add") : o = .add := by
   cases o <;> first | rfl | (exact absurd h (by decide))
